@@ -574,7 +574,7 @@ var zzvPool = []string{
 }
 
 // the pool of the two-operation histories
-var zzvSmallPool = []string{"/a/d/x", "/b/d/", "/b/f", "/c", "/a/d"}
+var zzvSmallPool = []string{"/a/d/x", "/b/d/", "/c"}
 
 const (
 	zzvKMkdir = iota
